@@ -17,7 +17,7 @@ type member struct {
 	Coarse string // canonical form of the answer-relevant content (Fine plus: nil == empty for contexts and filter slices, ...)
 	Flat   string // diagnosis only: a lossy flattening; when two colliding members share it, the signature says so
 	Tricky bool   // separator/tag-laden, nested, reordered, ... (anything but a plain value)
-	Show   any
+	Show   any // a value, or a func() any computed on demand
 }
 
 type component struct {
@@ -139,7 +139,13 @@ func ctxAlphabet(thorough bool) []ctxv {
 func ctxComp(name string, cs []ctxv) component {
 	c := component{Name: name}
 	for _, x := range cs {
-		c.M = append(c.M, member{V: x.pb(), Fine: x.fine(), Coarse: x.coarse(), Flat: "fields:" + fieldsCanon(x.fields), Tricky: !plainCtx(x), Show: x.show()})
+		x := x
+		fc := fieldsCanon(x.fields)
+		fine := "m" + fc
+		if x.isNil {
+			fine = "nil"
+		}
+		c.M = append(c.M, member{V: x.pb(), Fine: fine, Coarse: "m" + fc, Flat: "fields:" + fc, Tricky: !plainCtx(x), Show: func() any { return x.show() }})
 	}
 	return c
 }
@@ -227,7 +233,8 @@ func tuplesComp(name string, lists [][]tuplev) component {
 				tricky = true
 			}
 		}
-		c.M = append(c.M, member{V: pbs, Fine: tuplesCanon(l, false), Coarse: tuplesCanon(l, true), Tricky: tricky, Show: showTuples(l)})
+		l := l
+		c.M = append(c.M, member{V: pbs, Fine: tuplesCanon(l, false), Coarse: tuplesCanon(l, true), Tricky: tricky, Show: func() any { return showTuples(l) }})
 	}
 	return c
 }
@@ -460,4 +467,93 @@ func idSetComp(ls []idSet) component {
 		c.M = append(c.M, member{V: v, Fine: fine, Coarse: sortedSet(l.ins), Flat: "values:" + sortedSet(l.ins), Tricky: len(l.ins) != 1 || l.ins[0] != "1", Show: showList(l.isNil, l.ins)})
 	}
 	return c
+}
+
+// ---- systematic context values ---------------------------------------------------------------------
+
+// genValues enumerates every google.protobuf.Value with at most maxNodes nodes (scalars and containers count one
+// each) and container nesting <= maxDepth over: the given scalar leaves, lists of length 0-2, structs with 0-2
+// fields whose keys range over keys (so the empty key occurs at every nesting level). Struct fields are generated
+// in one order only (canonical de-duplication); the result is ordered by node count.
+func genValues(leaves []jv, keys []string, maxNodes, maxDepth int) []jv {
+	memo := map[[2]int][]jv{}
+	var gen func(n, d int) []jv
+	gen = func(n, d int) []jv {
+		if n < 1 || d < 0 {
+			return nil
+		}
+		if v, ok := memo[[2]int{n, d}]; ok {
+			return v
+		}
+		var out []jv
+		if n == 1 {
+			out = append(out, leaves...)
+			if d >= 1 {
+				out = append(out, jL(), jM())
+			}
+		} else if d >= 1 {
+			for _, c := range gen(n-1, d-1) {
+				out = append(out, jL(c))
+				for _, k := range keys {
+					out = append(out, jM(f(k, c)))
+				}
+			}
+			for i := 1; i <= n-2; i++ {
+				for _, a := range gen(i, d-1) {
+					for _, b := range gen(n-1-i, d-1) {
+						out = append(out, jL(a, b))
+						for k1 := range keys {
+							for k2 := k1 + 1; k2 < len(keys); k2++ {
+								out = append(out, jM(f(keys[k1], a), f(keys[k2], b)))
+							}
+						}
+					}
+				}
+			}
+		}
+		memo[[2]int{n, d}] = out
+		return out
+	}
+	var all []jv
+	for n := 1; n <= maxNodes; n++ {
+		all = append(all, gen(n, maxDepth)...)
+	}
+	return all
+}
+
+// sysValues: quick = all values of <= 5 nodes, nesting <= 3, leaves {"a","b","c"}, plus all values of <= 3 nodes over the
+// full leaf set {"", a, b, c, 1, "1", true, null}; thorough = <= 6 nodes over {"a","b","c"} plus <= 5 nodes over the full set.
+// nSmall = how many leading members have <= 2 (thorough 3) nodes over {"a","b","c"} (used for request x tuple context products).
+var sysCache = map[bool]struct {
+	vs []jv
+	n  int
+}{}
+
+func sysValues(thorough bool) (vs []jv, nSmall int) {
+	if c, ok := sysCache[thorough]; ok {
+		return c.vs, c.n
+	}
+	defer func() {
+		sysCache[thorough] = struct {
+			vs []jv
+			n  int
+		}{vs, nSmall}
+	}()
+	keys := []string{"", "a", "b", "x"}
+	abc := []jv{jS("a"), jS("b"), jS("c")}
+	full := []jv{jS(""), jS("a"), jS("b"), jS("c"), jN(1), jS("1"), jB(true), jNull}
+	n3, n8, ns := 5, 3, 2
+	if thorough {
+		n3, n8, ns = 6, 5, 3
+	}
+	nSmall = len(genValues(abc, keys, ns, 3))
+	seen := map[string]bool{}
+	for _, v := range append(genValues(abc, keys, n3, 3), genValues(full, keys, n8, 3)...) {
+		c := v.canon()
+		if !seen[c] {
+			seen[c] = true
+			vs = append(vs, v)
+		}
+	}
+	return
 }
